@@ -87,9 +87,10 @@ impl Report {
             }
             let c = self.counts.entry(check.to_string()).or_insert(0);
             *c += 1;
-            // panics are reported even behind three ordinary failures of the same check (C15 counts them from every check)
+            // up to 16 failing inputs of a check are listed (the count says how many there are: `check` treats unlisted ones as new);
+            // panics are reported even behind that many ordinary failures of the same check (C15 counts them from every check)
             let pc = if msg.starts_with("panic:") { let p = self.counts.entry(format!("{}#panics", check)).or_insert(0); *p += 1; *p } else { u64::MAX };
-            if *self.counts.get(check).unwrap() <= 3 || pc <= 3 { self.fails.push((check.to_string(), input.to_string(), msg)); }
+            if *self.counts.get(check).unwrap() <= 16 || pc <= 3 { self.fails.push((check.to_string(), input.to_string(), msg)); }
         }
     }
     pub fn finish(self) -> ! {
